@@ -256,12 +256,12 @@ Proof.
   assert (Hsub : forall z, In z (y :: r') -> In z (x :: r)).
   { intros z Hz. rewrite <- E in Hz. apply filter_In in Hz. destruct Hz as [Hz _].
     apply filter_In in Hz. exact (proj1 Hz). }
-  apply Hsub. Show.
-  match goal with |- In (snd (fold_left ?F (y :: r') ?acc)) _ =>
-    destruct (fold_pick_in (fun s => sumZl (map (fun p => if snd p =? 1 then ntips_of whole (fst p) else 0) s)) (y :: r') acc)
+  apply Hsub.
+  match goal with |- In (snd (fold_left ?F r' ?acc)) _ =>
+    destruct (fold_pick_in (fun s => sumZl (map (fun p => if snd p =? 1 then ntips_of whole (fst p) else 0) s)) r' acc)
       as [Ea|Ha] end.
-  - left. symmetry. exact Ea.
-  - exact Ha.
+  - left. rewrite Ea. match goal with |- y = snd (if ?c then _ else _) => destruct c end; reflexivity.
+  - right. exact Ha.
 Qed.
 
 (* ---------- the theorem ---------- *)
